@@ -113,7 +113,7 @@ func doPackage(dir string, imap map[string]string, timers, maprange, yield bool,
 		die("no Go files in %s", dir)
 	}
 	var info *types.Info
-	if maprange {
+	if maprange || timers {
 		info = &types.Info{Types: map[ast.Expr]types.TypeAndValue{}}
 		conf := types.Config{
 			Importer:  importer.ForCompiler(fset, "source", nil),
@@ -159,64 +159,116 @@ func doPackage(dir string, imap map[string]string, timers, maprange, yield bool,
 			total["import:"+p]++
 		}
 
-		// 2. timers
+		// 2. timers: every receive from a channel of time.Time (ticker.C, timer.C, time.After,
+		// a variable holding one of them) becomes a simulated receive; a select whose cases all
+		// receive from such channels (plus an optional default) becomes a switch on a
+		// simulated select.  Decided by type, not by spelling.
 		if timers && timeRedirected {
+			isTC := func(e ast.Expr) bool {
+				tv, ok := info.Types[e]
+				return ok && isTimeChan(tv.Type)
+			}
+			skip := map[ast.Node]bool{}
+			selN := 0
 			ast.Inspect(f, func(n ast.Node) bool {
 				switch x := n.(type) {
 				case *ast.SelectStmt:
+					// classify the clauses
+					type cl struct {
+						cc    *ast.CommClause
+						recv  *ast.UnaryExpr
+						bind  string // "" | "v :=" | "v ="
+						timer bool
+					}
+					var cls []cl
+					nTimer, nOther := 0, 0
 					for _, c := range x.Body.List {
 						cc := c.(*ast.CommClause)
-						if cc.Comm == nil {
-							continue
-						}
-						bad := false
-						ast.Inspect(cc.Comm, func(m ast.Node) bool {
-							if u, ok := m.(*ast.UnaryExpr); ok && u.Op == token.ARROW && isTimerChan(u.X, timeName) {
-								bad = true
+						k := cl{cc: cc}
+						switch st := cc.Comm.(type) {
+						case nil:
+						case *ast.ExprStmt:
+							if u, ok := st.X.(*ast.UnaryExpr); ok && u.Op == token.ARROW {
+								k.recv = u
 							}
-							return true
-						})
-						if bad {
-							die("%s: select on a timer channel is not supported by the Engine-A rewriter", fset.Position(cc.Pos()))
+						case *ast.AssignStmt:
+							if len(st.Rhs) == 1 && len(st.Lhs) == 1 {
+								if u, ok := st.Rhs[0].(*ast.UnaryExpr); ok && u.Op == token.ARROW {
+									k.recv = u
+									k.bind = text(st.Lhs[0]) + " " + st.Tok.String()
+								}
+							}
+						}
+						if k.recv != nil && isTC(k.recv.X) {
+							k.timer = true
+							nTimer++
+						} else if cc.Comm != nil {
+							nOther++
+						}
+						cls = append(cls, k)
+					}
+					if nTimer == 0 {
+						return true
+					}
+					if nOther > 0 {
+						die("%s: select mixing timer channels with other channel operations is not supported by the Engine-A rewriter", fset.Position(x.Pos()))
+					}
+					selN++
+					zz := "zzsel" + strconv.Itoa(selN)
+					hasDefault := "false"
+					var chans []string
+					for _, k := range cls {
+						if k.cc.Comm == nil {
+							hasDefault = "true"
 						}
 					}
+					idx := 0
+					for _, k := range cls {
+						if k.cc.Comm == nil {
+							// "default:" stays as it is (Select returns I = -1)
+							continue
+						}
+						chans = append(chans, text(k.recv.X))
+						skip[k.recv] = true
+						repl := "case " + strconv.Itoa(idx) + ":"
+						if k.bind != "" {
+							v := strings.Fields(k.bind)[0]
+							repl += " " + k.bind + " " + zz + ".T; _ = " + v + ";"
+						}
+						edits = append(edits, edit{off(k.cc.Case), off(k.cc.Colon) + 1, repl})
+						idx++
+					}
+					hdr := "switch " + zz + " := " + timeName + ".Select(" + hasDefault + ", " + strings.Join(chans, ", ") + "); " + zz + ".I {"
+					edits = append(edits, edit{off(x.Select), off(x.Body.Lbrace) + 1, hdr})
+					total["timer-select"]++
 				case *ast.RangeStmt:
-					// for v := range ticker.C { ... }  ->  for { v := ticker.RecvC(); ... }
-					if sel, ok := x.X.(*ast.SelectorExpr); ok && sel.Sel.Name == "C" {
+					// for v := range ch { ... }  ->  for { v := time.Recv(ch); ... }
+					if isTC(x.X) {
 						if x.Value != nil {
 							die("%s: range over a timer channel with two variables", fset.Position(x.Pos()))
 						}
 						hdr := "for { "
+						call := timeName + ".Recv(" + text(x.X) + ")"
 						if x.Key != nil {
 							if x.Tok != token.DEFINE {
-								hdr += text(x.Key) + " = " + text(sel.X) + ".RecvC();"
+								hdr += text(x.Key) + " = " + call + ";"
 							} else {
-								hdr += text(x.Key) + " := " + text(sel.X) + ".RecvC(); _ = " + text(x.Key) + ";"
+								hdr += text(x.Key) + " := " + call + "; _ = " + text(x.Key) + ";"
 							}
 						} else {
-							hdr += text(sel.X) + ".RecvC();"
+							hdr += call + ";"
 						}
 						edits = append(edits, edit{off(x.For), off(x.Body.Lbrace) + 1, hdr})
 						total["timer-range"]++
 					}
 				case *ast.UnaryExpr:
-					if x.Op != token.ARROW {
+					if x.Op != token.ARROW || skip[x] || !isTC(x.X) {
 						return true
 					}
-					if sel, ok := x.X.(*ast.SelectorExpr); ok && sel.Sel.Name == "C" {
-						edits = append(edits, edit{off(x.Pos()), off(x.End()), text(sel.X) + ".RecvC()"})
-						total["timer-recv"]++
-						return false
-					}
-					if call, ok := x.X.(*ast.CallExpr); ok {
-						if sel, ok := call.Fun.(*ast.SelectorExpr); ok && sel.Sel.Name == "After" {
-							if id, ok := sel.X.(*ast.Ident); ok && id.Name == timeName && len(call.Args) == 1 {
-								edits = append(edits, edit{off(x.Pos()), off(x.End()), timeName + ".RecvAfter(" + text(call.Args[0]) + ")"})
-								total["timer-after"]++
-								return false
-							}
-						}
-					}
+					// keep nested rewrites possible: only the operator and parentheses are added
+					edits = append(edits, edit{off(x.Pos()), off(x.X.Pos()), timeName + ".Recv("})
+					edits = append(edits, edit{off(x.End()), off(x.End()), ")"})
+					total["timer-recv"]++
 				}
 				return true
 			})
@@ -346,18 +398,16 @@ func doPackage(dir string, imap map[string]string, timers, maprange, yield bool,
 	}
 }
 
-func isTimerChan(e ast.Expr, timeName string) bool {
-	if sel, ok := e.(*ast.SelectorExpr); ok && sel.Sel.Name == "C" {
-		return true
+func isTimeChan(t types.Type) bool {
+	ch, ok := t.Underlying().(*types.Chan)
+	if !ok {
+		return false
 	}
-	if call, ok := e.(*ast.CallExpr); ok {
-		if sel, ok := call.Fun.(*ast.SelectorExpr); ok && (sel.Sel.Name == "After" || sel.Sel.Name == "Tick") {
-			if id, ok := sel.X.(*ast.Ident); ok && id.Name == timeName {
-				return true
-			}
-		}
+	n, ok := ch.Elem().(*types.Named)
+	if !ok {
+		return false
 	}
-	return false
+	return n.Obj().Name() == "Time" && n.Obj().Pkg() != nil && n.Obj().Pkg().Path() == "time"
 }
 
 func isMap(t types.Type) bool {
